@@ -25,11 +25,11 @@ type KnownFinding struct {
 }
 
 type MonArgs struct {
-	ID       string
-	Ctx      Ctx
-	Root     string // /verif
-	Bin      string // worker binary (this binary, possibly the -race build)
-	Replay   string // replay a stored case file instead of the planned run
+	ID     string
+	Ctx    Ctx
+	Root   string // /verif
+	Bin    string // worker binary (this binary, possibly the -race build)
+	Replay string // replay a stored case file instead of the planned run
 }
 
 type shardResult struct {
